@@ -1,8 +1,8 @@
 use core::fmt;
 
 use crate::typed::Utf8TypedPath;
-use crate::unix::Utf8UnixComponent;
-use crate::windows::Utf8WindowsComponent;
+use crate::unix::{Utf8UnixComponent, Utf8UnixPath};
+use crate::windows::{Utf8WindowsComponent, Utf8WindowsPath};
 use crate::{private, Utf8Component};
 
 /// Str slice version of [`std::path::Component`] that represents either a Unix or Windows path
@@ -18,7 +18,12 @@ impl private::Sealed for Utf8TypedComponent<'_> {}
 impl<'a> Utf8TypedComponent<'a> {
     /// Returns path representing this specific component.
     pub fn to_path(&self) -> Utf8TypedPath<'a> {
-        Utf8TypedPath::derive(self.as_str())
+        match self {
+            Self::Unix(component) => Utf8TypedPath::Unix(Utf8UnixPath::new(component.as_str())),
+            Self::Windows(component) => {
+                Utf8TypedPath::Windows(Utf8WindowsPath::new(component.as_str()))
+            }
+        }
     }
 
     /// Extracts the underlying [`str`] slice.
